@@ -597,8 +597,83 @@ inline int run(int argc, char **argv, const std::function<void()> &body)
 
 } // namespace vrt
 
+#ifdef VRT_FUZZ
+// ---------------------------------------------------------------- libFuzzer front end
+// With -DVRT_FUZZ (clang -fsanitize=fuzzer,address,undefined) the harness is not a worker
+// program but a fuzz target: libFuzzer grows a corpus by coverage feedback and every input
+// goes through the same monitors as the generated cases (the harness supplies
+// `static void vrt_fuzz_one(const uint8_t *, size_t)`).  A monitor violation aborts the
+// process so that libFuzzer keeps the input as an artifact; the driver re-runs every
+// artifact on its own to derive the violation key.
+namespace vrt {
+inline void on_vtalrm_fuzz(int)
+{
+    CurFile &c = cur();
+    if (c.base && c.len + 8 < c.cap) memcpy(c.base + c.len, "HANG\n", 6);
+    static const char msg[] = "VRT-HANG: case exceeded its CPU-time budget\n";
+    if (write(2, msg, sizeof(msg) - 1) < 0) {}
+    abort();
+}
+inline void fuzz_init()
+{
+    Options &o = opt();
+    const char *e;
+    if ((e = getenv("VRT_PROP"))) o.prop = e;
+    if ((e = getenv("VRT_OUT"))) o.outdir = e;
+    if ((e = getenv("VRT_SEED"))) o.seed = strtoull(e, nullptr, 10);
+    o.tier = "thorough";
+    o.worker = static_cast<int>(getpid());
+    o.verbose = getenv("VRT_VERBOSE") != nullptr;
+    State &s = st();
+    cur_open(o.outdir + sfmt("/w%d.cur", o.worker));
+    if ((e = getenv("VRT_DTABLE")) && getenv("VRT_DBITS")) {
+        o.dbits = atoi(getenv("VRT_DBITS"));
+        int fd = ::open(e, O_RDWR);
+        if (fd >= 0 && o.dbits > 0) {
+            size_t bytes = (static_cast<size_t>(1) << o.dbits) * sizeof(uint64_t);
+            void *p = mmap(nullptr, bytes, PROT_READ | PROT_WRITE, MAP_SHARED, fd, 0);
+            if (p != MAP_FAILED) {
+                s.dtab = static_cast<uint64_t *>(p);
+                s.dmask = (static_cast<uint64_t>(1) << o.dbits) - 1;
+            }
+        }
+        if (fd >= 0) close(fd);
+    }
+    struct sigaction sa;
+    memset(&sa, 0, sizeof(sa));
+    sa.sa_handler = on_vtalrm_fuzz;
+    sigaction(SIGVTALRM, &sa, nullptr);
+    install_assert_hook();
+    atexit([] { write_report(true); });
+}
+inline int fuzz_one(const uint8_t *data, size_t size, void (*fn)(const uint8_t *, size_t))
+{
+    static uint64_t index = 0;
+    State &s = st();
+    const size_t before = s.violations.size();
+    uint64_t total_before = 0;
+    for (auto &kv : s.violations) total_before += kv.second.count;
+    run_case("fuzz", index++, [&](uint64_t, Rng &) { fn(data, size); });
+    uint64_t total_after = 0;
+    for (auto &kv : s.violations) total_after += kv.second.count;
+    if (s.violations.size() != before || total_after != total_before) {
+        for (auto &kv : s.violations)
+            if (kv.second.index + 1 == index)
+                fprintf(stderr, "VRT-VIOLATION key=%s\nVRT-DETAIL %s\n", kv.second.key.c_str(), kv.second.detail.c_str());
+        write_report(false);
+        abort();
+    }
+    return 0;
+}
+} // namespace vrt
+#define VRT_MAIN(body) \
+    namespace vrt { void install_assert_hook() { _ST_PRIVATE::verif_assert_hook() = &vrt::assert_observer; } } \
+    extern "C" int LLVMFuzzerInitialize(int *, char ***) { vrt::fuzz_init(); return 0; } \
+    extern "C" int LLVMFuzzerTestOneInput(const uint8_t *d, size_t n) { return vrt::fuzz_one(d, n, &vrt_fuzz_one); }
+#else
 // Put `VRT_MAIN(body_function)` at the end of the harness (after including
 // the library headers with ST_VERIF_HOOKS defined).
 #define VRT_MAIN(body) \
     namespace vrt { void install_assert_hook() { _ST_PRIVATE::verif_assert_hook() = &vrt::assert_observer; } } \
     int main(int argc, char **argv) { return vrt::run(argc, argv, body); }
+#endif
